@@ -175,6 +175,10 @@ func checkC11(c c11Case) error {
 		if err != nil {
 			return err
 		}
+		if c.Decoded {
+			// half of the table: every key runs other library operations before it looks at its bytes
+			v = reentrantVerifier{v}
+		}
 		vs = append(vs, v)
 		vkeys = append(vkeys, k)
 	}
@@ -340,6 +344,7 @@ func checkC11Sign(c c11SignCase) error {
 	for i := 0; i < ns; i++ {
 		k := c11Keys[i%len(c11Keys)]
 		sp := bridge.RefSigner(k, []byte("c11sign"))
+		sp.Reenter = reenterLibrary
 		if i == c.FailAt {
 			sp.Mode = bridge.SignErr
 			if c.FailBytes {
@@ -402,10 +407,17 @@ func checkC11Sign(c c11SignCase) error {
 				vs = append(vs, bridge.RefVerifier(refcose.KeyMat{Alg: refcose.AlgES256, D: rc.Hex("c11-opaque")}))
 				continue
 			}
-			vs = append(vs, bridge.RefVerifier(c11Keys[i]))
+			rv := bridge.RefVerifier(c11Keys[i])
+			rv.Reenter = reenterLibrary
+			vs = append(vs, rv)
 		}
 		if err := m.Verify(nil, vs...); err != nil {
 			return finding("fresh-message-rejected", "%v", err)
+		}
+		for _, sg := range ss {
+			if sp, ok := sg.(*bridge.SpySigner); ok && sp.Corrupted {
+				return finding("tbs-unstable-while-in-use", "the bytes handed to a signer changed while it was still using them (another library operation ran in between)")
+			}
 		}
 	}
 	stats.Class("sign-side")
